@@ -189,8 +189,24 @@ def _comp(vecs, f):
     return "(%s%s)" % ("".join(lets), body) if lets else body
 
 
+def _comp2(vecs, f):
+    """componentwise 2-vector (`Hydro.V2`) built from the 2-vector expressions `vecs`"""
+    names, lets = [], []
+    for i, v in enumerate(vecs):
+        if _ATOM.match(v):
+            names.append(v)
+        else:
+            n = "w%d_" % i
+            lets.append("let %s : V2 α := %s; " % (n, v))
+            names.append(n)
+    body = "(⟨%s, %s⟩ : V2 α)" % tuple(f(*[n + "." + c for n in names]) for c in "xy")
+    return "(%s%s)" % ("".join(lets), body) if lets else body
+
+
 class Tr2:
-    def __init__(self, params, kinds, known, minmax=("min", "max")):
+    def __init__(self, params, kinds, known, minmax=("min", "max"), consts=None):
+        self.int_as_nat = False  # spec option: int literals in a returned tuple are `Nat` (feature bit sets)
+        self.consts = consts or {}  # module-level python constant -> lean term (a scalar of the model)
         self.env = dict(zip(params, kinds))
         self.params = set(params)
         self.known = known  # python name -> (lean name, result kind)
@@ -206,6 +222,8 @@ class Tr2:
         if isinstance(e, ast.Name):
             if e.id in self.env:
                 return self.env[e.id], e.id
+            if e.id in self.consts:
+                return "scalar", self.consts[e.id]
             raise Unsupported("free name " + e.id)
         if isinstance(e, ast.Constant):
             if isinstance(e.value, bool):
@@ -214,7 +232,8 @@ class Tr2:
                 return "scalar", self.num(e.value)
             raise Unsupported("constant %r" % (e.value,))
         if isinstance(e, ast.Tuple):
-            parts = [self.expr(x) for x in e.elts]
+            parts = [("nat", "(%d : Nat)" % x.value) if self.int_as_nat and isinstance(x, ast.Constant)
+                     and type(x.value) is int and x.value >= 0 else self.expr(x) for x in e.elts]
             return ("tuple", [k for k, _ in parts]), "(" + ", ".join(s for _, s in parts) + ")"
         if isinstance(e, ast.UnaryOp):
             k, s = self.expr(e.operand)
@@ -266,6 +285,14 @@ class Tr2:
             if op in "+-":
                 return "vec", "(%s %s %s)" % (l, op, r)
             return "vec", _comp([l, r], lambda a, b: "%s %s %s" % (a, op, b))
+        if kl == "vec2" and kr == "vec2":
+            if op == "-":
+                return "vec2", "(V2.sub %s %s)" % (l, r)
+            return "vec2", _comp2([l, r], lambda a, b: "%s %s %s" % (a, op, b))
+        if kl == "vec2" and kr == "scalar":
+            return "vec2", _comp2([l], lambda a: "%s %s %s" % (a, op, r))
+        if kl == "scalar" and kr == "vec2":
+            return "vec2", _comp2([r], lambda b: "%s %s %s" % (l, op, b))
         if kl == "scalar" and kr == "vec":
             if op == "*":
                 return "vec", "(%s * %s)" % (l, r)  # HMul α (V3 α) = V3.smul : s * v.i
@@ -286,6 +313,14 @@ class Tr2:
                 n, i = len(k[1]), idx.value
                 proj = ".2" * i + (".1" if i < n - 1 else "")
                 return k[1][i], "%s%s" % (s, proj)
+        if isinstance(idx, ast.Constant) and k == "vec2" and idx.value in (0, 1) and not isinstance(idx.value, bool):
+            return "scalar", "%s.%s" % (s if _ATOM.match(s) else "(" + s + ")", "xy"[idx.value])
+        if k == "hp" and isinstance(idx, ast.Slice) and idx.step is None and _ATOM.match(s):
+            # a half-plane row `[p0, p1, d0, d1]`: `h[:2]` is the point, `h[2:]` the direction
+            if ast.unparse(idx) == ":2":
+                return "vec2", "%s.p" % s
+            if ast.unparse(idx) == "2:":
+                return "vec2", "%s.d" % s
         if (isinstance(k, tuple) and isinstance(idx, ast.Slice) and idx.lower is None and idx.step is None
                 and isinstance(idx.upper, ast.Constant) and isinstance(idx.upper.value, int)
                 and not isinstance(idx.upper.value, bool) and 2 <= idx.upper.value <= len(k[1])):
@@ -306,8 +341,14 @@ class Tr2:
 
     def call(self, e):
         fn = ast.unparse(e.func)
+        if (fn == "np.empty" and len(e.args) == 1 and isinstance(e.args[0], ast.Constant) and e.args[0].value == 0
+                and not isinstance(e.args[0].value, bool)):
+            return "empty", "none"  # the empty array some kernels return for "no result"
         if e.keywords:
             raise Unsupported("keyword arguments in " + ast.unparse(e))
+        if (fn == "np.zeros" and len(e.args) == 1 and isinstance(e.args[0], ast.Constant) and e.args[0].value == 3
+                and not isinstance(e.args[0].value, bool)):
+            return "vec", "(V3.zero : V3 α)"
         if isinstance(e.func, ast.Attribute) and e.func.attr == "dot" and len(e.args) == 1:
             # method form `a.dot(b)` of np.dot(a, b)
             (ka, a), (kb, b) = self.expr(e.func.value), self.expr(e.args[0])
@@ -422,11 +463,49 @@ class Tr2:
         self.env[n] = k
         self.params.discard(n)
 
+    def if_outs(self, st):
+        """names assigned on both paths of an `if` made of assignments (and nested such `if`s), in order"""
+        def coll(b):
+            r = []
+            for x in b:
+                if isinstance(x, ast.If):
+                    r += [o for o in self.if_outs(x) if o not in r]
+                    continue
+                t = x.targets[0] if isinstance(x, ast.Assign) and len(x.targets) == 1 else getattr(x, "target", None)
+                if isinstance(t, ast.Subscript):
+                    t = t.value
+                if not isinstance(t, ast.Name):
+                    raise Unsupported("statement in branch " + ast.unparse(x)[:60])
+                if t.id not in r:
+                    r.append(t.id)
+            return r
+        a, b = coll(st.body), coll(st.orelse)
+        return [o for o in a if o in b or o in self.env] + [o for o in b if o not in a and o in self.env]
+
     def branch(self, stmts, outs):
         """a branch consisting of assignments only, yielding the tuple of `outs`"""
         saved = (dict(self.env), set(self.params))
         lets = []
         for st in stmts:
+            if isinstance(st, ast.If):
+                # nested `if` of assignments inside a branch
+                inner = self.if_outs(st)
+                if not inner or any(isinstance(x, ast.Return) for x in ast.walk(st)):
+                    raise Unsupported("nested if " + ast.unparse(st.test))
+                c = self.cond(st.test)
+                ka, a = self.branch(st.body, inner)
+                kb, b = self.branch(st.orelse, inner)
+                if ka != kb:
+                    raise Unsupported("branches assign different shapes")
+                if len(inner) == 1:
+                    lets.append("let %s := if %s then %s else %s; " % (inner[0], c, a, b))
+                else:
+                    lets.append("let br_ := if %s then %s else %s; " % (c, a, b))
+                    for i, o in enumerate(inner):
+                        lets.append("let %s := br_%s; " % (o, ".2" * i + (".1" if i < len(inner) - 1 else "")))
+                for o, k in zip(inner, ka):
+                    self.bind(o, k)
+                continue
             n, k, s = self.assign(st)
             lets.append("let %s := %s; " % (n, s))
             self.bind(n, k)
@@ -446,6 +525,8 @@ class Tr2:
             if st.value is None:
                 raise Unsupported("bare return")
             k, s = self.expr(st.value)
+            if k == "prop":
+                return "bool", ind + "decide %s" % s
             return k, ind + s
         if isinstance(st, ast.If):
             c = self.cond(st.test)
@@ -454,12 +535,19 @@ class Tr2:
                 k1, s1 = self.block(st.body, ind + "  ")
                 self.env, self.params = dict(saved[0]), set(saved[1])
                 k2, s2 = self.block(list(st.orelse) + rest, ind + "  ")
+                if k1 == "empty" and k2 in ("vec2", "vec"):
+                    return ("option", k2), "%sif %s then\n%s\n%selse\n%ssome (\n%s)" % (ind, c, s1, ind, ind + "  ", s2)
                 if k1 != k2:
                     raise Unsupported("branches return different shapes")
                 return k1, "%sif %s then\n%s\n%selse\n%s" % (ind, c, s1, ind, s2)
             outs = []
             for b in (st.body, st.orelse):
                 for x in b:
+                    if isinstance(x, ast.If):
+                        for o in self.if_outs(x):
+                            if o not in outs:
+                                outs.append(o)
+                        continue
                     t = x.targets[0] if isinstance(x, ast.Assign) and len(x.targets) == 1 else getattr(x, "target", None)
                     if isinstance(t, ast.Subscript):
                         t = t.value
@@ -468,6 +556,8 @@ class Tr2:
                     if t.id not in outs:
                         outs.append(t.id)
             def names(b):
+                if any(isinstance(x, ast.If) for x in b):
+                    return set(sum((self.if_outs(x) if isinstance(x, ast.If) else list(names([x])) for x in b), []))
                 ts = [(x.targets[0] if isinstance(x, ast.Assign) else x.target) for x in b]
                 return {(t.value if isinstance(t, ast.Subscript) else t).id for t in ts}
             # a name assigned on one path only and unknown before the `if` is local to that path
@@ -514,9 +604,11 @@ class Tr2:
 
 
 def _lean_type(k):
-    if isinstance(k, tuple):
+    if isinstance(k, tuple) and k[0] == "tuple":
         return " × ".join(("(%s)" % _lean_type(x)) if isinstance(x, tuple) else _lean_type(x) for x in k[1])
-    return {"scalar": "α", "vec": "V3 α", "pose": "Pose α", "bool": "Bool"}.get(k) or _bad(k)
+    if isinstance(k, tuple) and k[0] == "option":
+        return "Option (%s)" % _lean_type(k[1])
+    return {"scalar": "α", "vec": "V3 α", "pose": "Pose α", "bool": "Bool", "nat": "Nat", "vec2": "V2 α", "hp": "HP α"}.get(k) or _bad(k)
 
 
 def _bad(k):
@@ -666,6 +758,58 @@ SPECS = {
               "  simp only [h1, h2, not_true_eq_false, not_false_eq_true, and_self, and_false, false_and, or_self, "
               "or_true, true_or, if_true, if_false] <;> rfl")),
         ]),
+    # hydroelastic half-plane helpers (C15); 2-vectors are the model's `Hydro.V2`, a row `[p0, p1, d0, d1]` its `HP`
+    "15": dict(
+        imports=["D3.Model.Hydro"], opens="D3 D3.Hydro", minmax=("min", "max"),
+        consts={"EPSILON": "(D3.Hydro.eps : α)"},
+        kernels=[
+            ("hydroelastic_contact/_halfplanes.py", "cross2d", ["vec2", "vec2"],
+             ("(a b : V2 α)", "{f} a b", "D3.Hydro.cross2d a b", "rfl")),
+            ("hydroelastic_contact/_halfplanes.py", "intersect_two_halfplanes", ["hp", "hp"],
+             ("(h1 h2 : HP α)", "{f} h1 h2", "D3.Hydro.intersectTwoHalfplanes h1 h2",
+              "by unfold {f} D3.Hydro.intersectTwoHalfplanes; simp only [cross2d_link]; rfl")),
+            ("hydroelastic_contact/_halfplanes.py", "point_outside_of_halfplane", ["hp", "vec2"],
+             ("(h : HP α) (q : V2 α)", "{f} h q", "D3.Hydro.pointOutsideOfHalfplane h q", "rfl")),
+        ]),
+    # GJK (Jolt) simplex helpers (C18)
+    "18": dict(
+        imports=["D3.Model.Simplex"], opens="D3 D3.Simplex", minmax=("min", "max"),
+        consts={"EPSILON_SQR": "(D3.Simplex.EPS2 : α)", "EPSILON": "(D3.Simplex.EPS : α)"}, int_as_nat=True,
+        kernels=[
+            # model: checked division (`divZero`) and a branch id; link under the explicit non-zero-denominator
+            # hypothesis, on the `(u, v)` part
+            ("gjk/_gjk_jolt.py", "get_barycentric_coordinates_line", ["vec", "vec"],
+             ("(a b : V3 α) (h : V3.dot (b - a) (b - a) < 0 ∨ 0 < V3.dot (b - a) (b - a))",
+              "(D3.Simplex.baryLine a b).map (fun r => (r.1, r.2.1))", ".ok ({f} a b)",
+              "by\n  unfold {f} D3.Simplex.baryLine D3.Simplex.cdiv\n  dsimp only\n"
+              "  by_cases h1 : V3.dot (b - a) (b - a) < (D3.Simplex.EPS2 : α)\n"
+              "  · by_cases h2 : V3.dot a a < V3.dot b b\n"
+              "    · simp only [if_pos h1, if_pos h2]; rfl\n    · simp only [if_pos h1, if_neg h2]; rfl\n"
+              "  · simp only [if_neg h1, if_pos h]; rfl")),
+            ("gjk/_gjk_jolt.py", "closest_point_line", ["vec", "vec"],
+             ("(a b : V3 α) (h : V3.dot (b - a) (b - a) < 0 ∨ 0 < V3.dot (b - a) (b - a))",
+              "(D3.Simplex.closestPointLine a b).map (fun r => (r.pt, r.set))", ".ok ({f} a b)",
+              "by\n  unfold {f} get_barycentric_coordinates_line D3.Simplex.closestPointLine D3.Simplex.baryLine "
+              "D3.Simplex.cdiv\n  dsimp only\n"
+              "  by_cases h1 : V3.dot (b - a) (b - a) < (D3.Simplex.EPS2 : α)\n"
+              "  · by_cases h2 : V3.dot a a < V3.dot b b\n"
+              "    · simp only [if_pos h1, if_pos h2, bind, Except.bind]; split <;> (try split) <;> rfl\n"
+              "    · simp only [if_neg h2, if_pos h1, bind, Except.bind]; split <;> (try split) <;> rfl\n"
+              "  · simp only [if_neg h1, if_pos h, bind, Except.bind]; split <;> (try split) <;> rfl")),
+        ]),
+    # MPR helpers (C08); the (4, 3) portal array is a 4-tuple of rows.  `_portal_direction` and
+    # `_find_penetration_segment` are NOT linked: they go through `norm_vector`, whose `norm == 0.0` the translator reads
+    # as `n ≤ 0 ∧ 0 ≤ n` while `MprPen.isZero n` is `¬ n < 0 ∧ ¬ 0 < n`; the two are not equal for a generic scalar
+    "08": dict(
+        imports=["D3.Model.MprPen"], opens="D3 D3.MprPen", minmax=("min", "max"),
+        consts={"EPSILON": "(D3.MprPen.EPS : α)"},
+        kernels=[
+            ("mpr.py", "_encapsulates_origin", ["vec", "vec"],
+             ("(v dir : V3 α)", "{f} v dir", "D3.MprPen.encapsulatesOrigin v dir", "rfl")),
+            ("mpr.py", "_find_penetration_touch", [("tuple", ["vec"] * 4), ("tuple", ["vec"] * 4)],
+             ("(p1 : SP α) (a0 a2 a3 b0 b2 b3 : V3 α)", "{f} (a0, p1.a, a2, a3) (b0, p1.b, b2, b3)",
+              "D3.MprPen.findPenetrationTouch p1", "rfl")),
+        ]),
 }
 
 _KNOWN = {}
@@ -708,7 +852,9 @@ def translate_spec(tag):
             try:
                 if len(params) != len(kinds) or fn.args.vararg or fn.args.kwarg or fn.args.kwonlyargs:
                     raise Unsupported("parameter list changed")
-                rk, term = Tr2(params, kinds, known, spec["minmax"]).block(body)
+                tr = Tr2(params, kinds, known, spec["minmax"], spec.get("consts"))
+                tr.int_as_nat = bool(spec.get("int_as_nat"))
+                rk, term = tr.block(body)
                 sig = " ".join("(%s : %s)" % (p, _lean_type(k)) for p, k in zip(params, kinds))
                 out.append("/-- `%s:%s` -/\ndef %s %s : %s :=\n%s\n\n" % (pyfile, py, name, sig, _lean_type(rk), term))
                 known[py] = (name, kinds, rk)
